@@ -49,7 +49,7 @@ def programs(tier):
     if tier == 'thorough':
         for c in compositions(16, 3):
             progs.append({'widths': c, 'embed': True})
-    for k in (24, 32, 40, 48) if tier == 'thorough' else (24, 40):
+    for k in (24, 32, 40, 48, 56, 64, 72, 80, 128) if tier == 'thorough' else (24, 40, 64, 72):
         for c in wide_family(k):
             progs.append({'widths': c, 'embed': False})
     for p in list(progs):
